@@ -29,6 +29,10 @@ type Obj struct {
 func (o *Obj) Get() int       { o.L.Add("Get@%d", o.N); return o.N }
 func (o *Obj) Plus(k int) int { o.L.Add("Plus@%d(%d)", o.N, k); return o.N + k }
 func (o Obj) Title() string   { o.L.Add("Title@%d", o.N); return "<" + o.Name + ">" }
+func (o *Obj) Pick(a, b interface{}) interface{} {
+	o.L.Add("Pick@%d(%v,%v)", o.N, Norm(a), Norm(b))
+	return b
+}
 
 type MyInt int
 type MyStr string
@@ -86,7 +90,11 @@ func (e Env) TakesF64(x float64) float64         { e.L.Add("TakesF64(%v)", x); r
 func (e Env) TakesAny(x interface{}) interface{} { e.L.Add("TakesAny(%v)", x); return x }
 func (e Env) TakesArr(x []int) int               { e.L.Add("TakesArr(%v)", x); return len(x) }
 func (e Env) TakesAnyArr(x []interface{}) int    { e.L.Add("TakesAnyArr/%d", len(x)); return len(x) }
-func (e Env) Boom(i int) int                     { e.L.Add("Boom(%d)", i); panic("boom") }
+func (e Env) Second(a, b interface{}) interface{} {
+	e.L.Add("Second(%v,%v)", Norm(a), Norm(b))
+	return b
+}
+func (e Env) Boom(i int) int { e.L.Add("Boom(%d)", i); panic("boom") }
 
 // Domain of one member: constructors taking the run's log.
 type Domain []func(l *Log) interface{}
